@@ -69,7 +69,10 @@ func (c *checkCtx) tryReplay(fr *funcResult, o *sym.Outcome) *replayRun {
 			return runReplayer(r, o)
 		}
 	}
-	r, ok := replayers[key]
+	r, ok := replayers[c.prop.ID+"|"+key]
+	if !ok {
+		r, ok = replayers[key]
+	}
 	if !ok {
 		return &replayRun{Kind: "none", Verdict: "not-run", Output: "no replay template for " + key}
 	}
@@ -134,10 +137,14 @@ func cmdReplay(args []string) int {
 			}
 			out, _ := exec.Command(s, append(args, script)...).CombinedOutput()
 			first := strings.SplitN(strings.TrimSpace(string(out)), "\n", 2)[0]
-			fmt.Printf("  %s: %s\n", s, first)
-			if first == "sat" {
-				rc = 1
-			}
+			fmt.Printf("  recorded query, %s: %s\n", s, first)
+		}
+	}
+	// the verdict comes from the current working tree: regenerate the obligation and solve it again
+	if st := reverify(rf.Obligation); st != "" {
+		fmt.Printf("  obligation regenerated from the working tree: %s\n", st)
+		if st != "discharged" {
+			rc = 1
 		}
 	}
 	if rf.Replay != nil && rf.Replay.Source != "" {
@@ -151,4 +158,57 @@ func cmdReplay(args []string) int {
 		fmt.Printf("VIOLATION property=%s replay=%s\n", rf.Property, args[0])
 	}
 	return rc
+}
+
+// reverify regenerates the named obligation from the current working tree and solves it.
+func reverify(ob string) string {
+	k := strings.Index(ob, "::")
+	if k < 0 {
+		return ""
+	}
+	fn := ob[:k]
+	if b := strings.Index(fn, "{"); b >= 0 {
+		fn = fn[:b]
+	}
+	slash := strings.LastIndex(fn, "/")
+	dot := strings.Index(fn[slash+1:], ".")
+	if dot < 0 {
+		return ""
+	}
+	rel, name := fn[:slash+1+dot], fn[slash+1+dot+1:]
+	p, err := load.Load("./" + rel)
+	if err != nil {
+		return "engine fault: " + err.Error()
+	}
+	x := sym.NewExec(p.Prog, p.Specs)
+	var rep *sym.FuncReport
+	path := load.ModulePath + "/" + rel
+	switch {
+	case strings.HasPrefix(name, "lemma:"), strings.HasPrefix(name, "writers:"):
+		db := p.Specs[path]
+		if db == nil || db.Funcs[name] == nil {
+			return "contract not found"
+		}
+		if strings.HasPrefix(name, "writers:") {
+			rep = x.VerifyWriters(p.Pkgs[path], db.Funcs[name])
+		} else {
+			rep = x.VerifyLemma(p.Pkgs[path], db.Funcs[name])
+		}
+	default:
+		f := p.Func(rel, name)
+		if f == nil {
+			return "function not found in the working tree"
+		}
+		rep = x.Verify(f)
+	}
+	if rep.Error != "" {
+		return "not analysable: " + rep.Error
+	}
+	for _, o := range rep.Obligations {
+		if o.Name == ob {
+			out := sym.SolveAll([]*sym.Prepared{x.Prepare(o)}, 30*time.Second, false, 1)
+			return out[0].Status
+		}
+	}
+	return "no obligation of this name is generated any more"
 }
